@@ -97,5 +97,9 @@ instance (cfg : Cfg) (sc : Script) : ∀ x y, Decidable (Agree cfg sc x y)
 def nCalls (l : List Item) : Nat := (l.filter fun i => match i with | .call .. => true | _ => false).length
 def nDones (l : List Item) : Nat := (l.filter fun i => match i with | .done .. => true | _ => false).length
 
+/-- the callback starts of a trace segment, in order -/
+def callsOf (l : List Item) : List (Slot × Nat) :=
+  l.filterMap fun i => match i with | .call sl c _ _ _ => some (sl, c) | _ => none
+
 end C07
 end TM
